@@ -18,7 +18,7 @@ ASSUMPTIONS = ["multiprocessing transport (pickling, imap ordering) is exercised
                "visited_cells of percolation generators: component exactness is C13_component (validated here per run)"]
 TRUSTED = ["RNG taps, `min` shadow, wrappers around _generate_maze_helper / generate_random_path used to cut the draw stream per item"]
 
-EP_OPTS = [dict(), dict(deadend_start=True), dict(deadend_end=True), dict(deadend_start=True, deadend_end=True, endpoints_not_equal=True),
+EP_OPTS = [dict(), dict(allowed_start=[]), dict(allowed_end=[], endpoints_not_equal=True), dict(deadend_start=True), dict(deadend_end=True), dict(deadend_start=True, deadend_end=True, endpoints_not_equal=True),
            dict(endpoints_not_equal=True), "allowed_start", "allowed_end", "allowed_both", "allowed_start_deadend_end"]
 
 
@@ -173,6 +173,25 @@ def run(ctx):
             if bad: ctx.violate(f"serial item {i} of {case} endpoint_kwargs={ep} seed={cfg.seed}: {bad}", dict(case=case, ep=opts_json(ep), seed=cfg.seed, index=i))
         if k % max(1, n_cfg // (len(par_sizes) * (1 if ctx.quick else 4))) == 0:
             par_jobs.append((cfg, case, ep))
+    # ---- the configured number of elements through the config-driven entry point WITH its cache: two requests that differ only in a
+    #      maze count >= 1000 (the cache file name abbreviates the count: 1000 and 1049 are both "1.0K") share one cache directory
+    import shutil
+    for a, b in ([(1000, 1049)] if ctx.quick else [(1000, 1049), (1200, 1249), (2500, 2549)]):
+        d = ctx.workdir / "cache_seq"
+        shutil.rmtree(d, ignore_errors=True)
+        for n in (a, b, a):
+            cfg = _cfg_of(dict(gen="dfs", rows=2, cols=2, kwargs={}), {}, 5, n, "c03cache")
+            try:
+                ds = MazeDataset.from_config(cfg, local_base_path=d, do_download=False)
+            except Exception as e:
+                ctx.violate(f"from_config with a cache directory raised {type(e).__name__}: {str(e)[:150]} for n_mazes={n} (after other requests differing only in the count)",
+                            dict(case=dict(gen="dfs", rows=2, cols=2, kwargs={}), ep={}, seed=5, n_mazes=n, cache_sequence=[a, b, a])); break
+            ctx.case(["cache-seq", a, b, n]); ctx.count("cache_count_sequence")
+            if len(ds) != n or int(ds.cfg.n_mazes) != n:
+                ctx.violate(f"from_config(n_mazes={n}) with a cache directory that already held the dataset for another maze count returned {len(ds)} elements "
+                            f"(requests in order {[a, b, a]}; both counts abbreviate to the same text in the cache file name)",
+                            dict(case=dict(gen="dfs", rows=2, cols=2, kwargs={}), ep={}, seed=5, n_mazes=n, cache_sequence=[a, b, a])); break
+        shutil.rmtree(d, ignore_errors=True)
     # ---- grids beyond 127/128 (narrow integer types): oracle only ---------------------------------------
     for g, nm in ([(130, 2), (129, 1)] if ctx.quick else [(129, 3), (130, 4), (200, 2), (257, 1)]):
         case = dict(gen=ctx.rng.choice(["dfs", "dfs_percolation"]), rows=g, cols=g, kwargs={})
